@@ -1,5 +1,5 @@
 (* C15: evaluation of the model on recorded cases (correspondence check). *)
-From CJ Require Import Common.Base C15.Model C15.ModelName C15.ModelObf C15.ModelAny C15.ModelDns C15.ModelB32 C15.ModelExch C15.ModelPb C15.ModelDot.
+From CJ Require Import Common.Base C15.Model C15.ModelName C15.ModelObf C15.ModelAny C15.ModelDns C15.ModelB32 C15.ModelExch C15.ModelPb C15.ModelDot C15.ModelSeq.
 
 Definition obs := (bool * bytes * bool * bytes)%type.
 
@@ -370,7 +370,45 @@ Inductive vcase :=
    call has returned.  The model's encoders and decoders are pure functions of (input, randomness), so the model's
    batch result is the list of its single results (ModelSeq.enc_each / dec_each, the C15_seq theorems): the batch
    agrees with the model iff every held item does. *)
-| CBatch (items : list vcase).
+| CBatch (items : list vcase)
+(* the same batch evaluated through the sequence functions the C15_seq theorems are about (ModelSeq.enc_each_d /
+   dec_each_d / enc_each / dec_each): codec e on the inputs xs, compared position by position with what the caller
+   holds after the last encoder call and with what the decoder calls returned; XOR with the pads read off the encodings *)
+| CSeqD (e : N) (xs : list bspec) (os : list obs_spec)
+| CSeqXor (ts : list bytes) (os : list obs).
+
+(* codecs: 0 request framing, 1 response framing, 4 TXT, 11 the Nil obfuscator *)
+Definition seq_codec (e : N) : (bytes -> option bytes) * (bytes -> option bytes) :=
+  match e with
+  | 0 => (add_request_format, remove_request_format)
+  | 1 => (add_response_format, remove_response_format)
+  | 4 => (fun p => Some (enc_txt p), dec_txt)
+  | 11 => (nil_obfuscate, nil_reveal)
+  | _ => (fun _ => None, fun _ => None)
+  end.
+Definition held_matches (c d : option bytes) (o : obs_spec) : bool :=
+  let '(ok, o1, ok2, o2) := o in
+  match c with
+  | None => negb ok
+  | Some c' => ok && bspec_matches o1 c' &&
+               match d with Some d' => ok2 && bspec_matches o2 d' | None => negb ok2 end
+  end.
+Fixpoint all3 {A B C} (f : A -> B -> C -> bool) (a : list A) (b : list B) (c : list C) : bool :=
+  match a, b, c with
+  | [], [], [] => true
+  | x :: a', y :: b', z :: c' => f x y z && all3 f a' b' c'
+  | _, _, _ => false
+  end.
+Definition chk_seq_d (e : N) (xs : list bspec) (os : list obs_spec) : bool :=
+  let '(f, g) := seq_codec e in
+  let cs := enc_each_d f (map bspec_val xs) in
+  all3 held_matches cs (dec_each_d g cs) os.
+Definition lit_obs (o : obs) : obs_spec := let '(a, b, c, d) := o in (a, Lit b, c, Lit d).
+Definition chk_seq_xor (ts : list bytes) (os : list obs) : bool :=
+  let pads := map (fun to => take (blen (fst to)) (snd (fst (fst (snd to))))) (combine ts os) in
+  let xs := map (fun t => ([], t)) ts in
+  let cs := enc_each xor_enc pads xs in
+  (length ts =? length os)%nat && all3 held_matches cs (dec_each xor_dec (map fst xs) cs) (map lit_obs os).
 
 Definition chk1 (c : vcase) : bool :=
   match c with
@@ -397,6 +435,8 @@ Definition chk1 (c : vcase) : bool :=
      same prefix; if it does not, Go may still match (e.g. two invalid bytes both become U+FFFD): unconstrained *)
   | CTrimNA n s ok pre => match trim_suffix n s with Some p => ok && name_eqb pre p | None => true end
   | CBatch _ => false      (* batches do not nest *)
+  | CSeqD e xs os => chk_seq_d e xs os
+  | CSeqXor ts os => chk_seq_xor ts os
   end.
 
 Definition chk (c : vcase) : bool :=
